@@ -133,8 +133,9 @@ class PolyCond(AbstractValue):
 
 
 class FieldSymClass:
-    def __init__(self, modulus=None):
+    def __init__(self, modulus=None, tag=None):
         self.modulus = modulus
+        self.tag = tag            # the concrete field class (ClassInfo) the symbolic coordinates stand for, when a run is typed
 
     def v_getattr(self, name, it):
         if name == "zero":
@@ -258,6 +259,9 @@ class FieldSym(AbstractValue):
     def v_isinstance(self, T, it):
         if T == "int":
             return self.cls.modulus is not None      # secp256k1 codes field elements as ints
+        tag = getattr(self.cls, "tag", None)
+        if tag is not None and hasattr(T, "mro") and hasattr(tag, "mro"):
+            return T in tag.mro(it.repo)
         return NotImplemented
 
     def __repr__(self):
